@@ -840,14 +840,35 @@ func child(index int, resPath string) {
 			t1 = time.Now()
 			time.Sleep(2 * time.Millisecond)
 		}
+		// family "context already done": coercion.New is handed a context that was cancelled before the call,
+		// or whose deadline has passed. Expected: an error, or a complete recovery - never a Workstream (nil
+		// error) whose Running plans were left alone.
+		ctxKind, ctxName := 0, "live"
+		nctx := ctx
+		if crashJ == 0 && r.Chance(0.15) {
+			if r.Chance(0.5) {
+				c, cancel := context.WithCancel(ctx)
+				cancel()
+				nctx, ctxKind, ctxName = c, 1, "cancelled"
+			} else {
+				c, cancel := context.WithDeadline(ctx, time.Now().Add(-time.Second))
+				defer cancel()
+				nctx, ctxKind, ctxName = c, 2, "expired"
+			}
+		}
 		t2 := time.Now()
-		ws2, err := coercion.New(ctx, set.Reg, top, opts...)
+		ws2, err := coercion.New(nctx, set.Reg, top, opts...)
 		t3 := time.Now()
 		if crashJ == 0 {
 			t0, t1 = t2, t3
 		}
-		if err != nil {
-			fatal("coercion.New: %v", err)
+		newErr := err != nil
+		newErrText := ""
+		if newErr {
+			newErrText = err.Error()
+			if len(newErrText) > 300 {
+				newErrText = newErrText[:300]
+			}
 		}
 		slow := !crashFamily && t1.Sub(tCraft) > 150*time.Millisecond
 
@@ -855,6 +876,10 @@ func child(index int, resPath string) {
 		deadline := time.Now().Add(4 * time.Second)
 		waits := make([]string, len(plansB))
 		for j, b := range plansB {
+			if newErr || ws2 == nil {
+				waits[j] = "no-workstream"
+				continue
+			}
 			wctx, cancel := context.WithDeadline(ctx, deadline)
 			_, err := ws2.Wait(wctx, b.img.ID)
 			cancel()
@@ -924,12 +949,12 @@ func child(index int, resPath string) {
 			}
 			iv.mu.Unlock()
 		}
-		hashParts = append(hashParts, fmt.Sprint(vaultKind, staleDesc, crashJ))
+		hashParts = append(hashParts, fmt.Sprint(vaultKind, staleDesc, crashJ, ctxKind, newErr))
 		// the case term is  (Build_case maxage recovery store stale [run; ..]): the store is written once per
 		// store (head), every run of the store adds one run term
 		head := core.Sprintf("Build_case %s %s %s %s", core.Z(int64(mk.D)), core.B(recovery), core.List(beforeTerms), core.List(staleIx))
 		term := core.App("Build_run", plancoq.Time(t0), plancoq.Time(t1), core.List(obsTerms), core.Nat(vaultKind),
-			core.Nat(crashJ), plancoq.Time(t2), plancoq.Time(t3))
+			core.Nat(crashJ), plancoq.Time(t2), plancoq.Time(t3), core.Nat(ctxKind), core.B(newErr))
 		statuses := []string{}
 		for _, d := range descs {
 			statuses = append(statuses, d.Status)
@@ -951,7 +976,7 @@ func child(index int, resPath string) {
 			Coq:        term,
 			Nontrivial: nontrivial,
 			Hash:       core.Hash(hashParts...),
-			Dist:       map[string]any{"plans": len(plansB), "recovery": recovery, "max_age": mk.Name, "file_backed": fileBacked, "statuses": statuses, "new_ms": t1.Sub(t0).Milliseconds(), "slack_ms": t1.Sub(tCraft).Milliseconds(), "stray_writes": stray, "option_order": optOrder, "indexed_vault": indexed, "stale_index_plans": staleDesc, "vault_call_order": callOrder, "calls_before_recovery": early, "crash_after_write": crashJ, "group": index, "case_head": head},
+			Dist:       map[string]any{"plans": len(plansB), "recovery": recovery, "max_age": mk.Name, "file_backed": fileBacked, "statuses": statuses, "new_ms": t1.Sub(t0).Milliseconds(), "slack_ms": t1.Sub(tCraft).Milliseconds(), "stray_writes": stray, "option_order": optOrder, "indexed_vault": indexed, "stale_index_plans": staleDesc, "vault_call_order": callOrder, "calls_before_recovery": early, "crash_after_write": crashJ, "context": ctxName, "new_returned_error": newErr, "new_error": newErrText, "group": index, "case_head": head},
 			Input:      map[string]any{"seed": core.Seed(), "index": index, "max_age_ns": int64(mk.D), "max_age_option_passed": mk.Pass, "recovery": recovery, "file_backed": fileBacked, "crash_after_write": crashJ},
 			Observed:   descs,
 		}
